@@ -40,6 +40,11 @@ def outcomeStr {α} (f : α → String) : Outcome α → String
 
 def b01 (b : Bool) : String := if b then "1" else "0"
 
+/-- Rule and format fields are Go `int`s that the library tests bit by bit: a negative value stands for
+its 64-bit two's-complement pattern (so `-1` has every bit set). -/
+def bitsField (s : String) : Option Nat :=
+  s.toInt?.map fun r => (r % 18446744073709551616).toNat
+
 def dateStr (d : Date.Date) : String :=
   let (y, m, dd) := d.date
   s!"{y} {m} {dd}"
@@ -149,6 +154,33 @@ def tkCase (s : String) : Option TestKit.Case :=
     let c ← c.toNat?; let b ← tkHook b; let a ← tkHook a; let p ← tkPred p
     let m ← tkMBeh m; let u ← tkUBeh u; let d ← optBytes d; let v ← v.toInt?
     pure ⟨c, b, a, p, m, u, d, v⟩
+  | _ => none
+
+/-- the edit a hook performs on the case it is handed: `;`-separated `d=<hex|nil>`, `v=<int>`, `r=<pred>`, `c=<nat>` -/
+def tkEdit (allowValue : Bool) (items : List String) : Option TestKit.Edit :=
+  items.foldlM (fun (e : TestKit.Edit) (it : String) =>
+    if it.startsWith "d=" then (optBytes ((it.drop 2).toString)).map fun d => { e with data := some d }
+    else if it.startsWith "v=" then (if allowValue then ((it.drop 2).toString.toInt?).map fun v => { e with value := some v } else none)
+    else if it.startsWith "r=" then (tkPred ((it.drop 2).toString)).map fun p => { e with pred := some p }
+    else if it.startsWith "c=" then ((it.drop 2).toString.toNat?).map fun n => { e with constraint := some n }
+    else none) TestKit.Edit.none
+
+/-- hook field: `<kind>` or `<kind>;<edit items>` -/
+def tkHookX (allowValue : Bool) (s : String) : Option (TestKit.Hook × TestKit.Edit) :=
+  match s.splitOn ";" with
+  | k :: items => do
+    let k ← tkHook k
+    let e ← tkEdit allowValue items
+    if k == .nil && !items.isEmpty then none
+    pure (k, e)
+  | [] => none
+
+def tkXCase (s : String) : Option TestKit.XCase :=
+  match s.splitOn "/" with
+  | [c, b, a, p, m, u, d, v] => do
+    let c ← c.toNat?; let (b, be) ← tkHookX true b; let (a, ae) ← tkHookX false a; let p ← tkPred p
+    let m ← tkMBeh m; let u ← tkUBeh u; let d ← optBytes d; let v ← v.toInt?
+    pure ⟨⟨c, b, a, p, m, u, d, v⟩, be, ae⟩
   | _ => none
 
 def tkHelper : String → Option TestKit.Helper
@@ -304,7 +336,7 @@ def step (line : String) : String :=
   -- ------------------------------------------------------------------ date
   | ["date.format", y, m, d, basic, pre] =>
     (do let y ← y.toInt?; let m ← m.toInt?; let d ← d.toInt?; let p ← unhex pre
-        let fl ← basic.toNat?
+        let fl ← bitsField basic
         pure (hex (Date.format p (Date.new y m d) (Date.isBasic fl)))).getD bad
   | ["date.paths", y, m, d] =>
     (do let y ← y.toInt?; let m ← m.toInt?; let d ← d.toInt?
@@ -312,7 +344,7 @@ def step (line : String) : String :=
         let f := fun (verb : Nat) => hex (Date.formatVerb x verb)
         pure s!"{hex (Date.marshalText x)} {hex (Date.toString x)} {f 115} {f 101} {f 98} {f 118}").getD bad
   | ["date.parse", maxlen, rule, h] =>
-    (do let ml ← maxlen.toNat?; let r ← rule.toNat?; let s ← unhex h
+    (do let ml ← maxlen.toNat?; let r ← bitsField rule; let s ← unhex h
         pure (outcomeStr dateStr (Date.parse ml (Date.ruleDisableBasic r) s))).getD bad
   | ["date.unbin", h] =>
     (do let s ← unhex h; pure (outcomeStr dateStr (Date.unmarshalBinary s))).getD bad
@@ -351,17 +383,17 @@ def step (line : String) : String :=
           | .panic => "panic")).getD bad
   -- ------------------------------------------------------------------ roman
   | ["roman.format", n, flags, pre] =>
-    (do let n ← n.toNat?; let f ← flags.toNat?; let p ← unhex pre
+    (do let n ← n.toNat?; let f ← bitsField flags; let p ← unhex pre
         pure (hex (Roman.format p n f))).getD bad
   | ["roman.paths", n, df] =>
     (do let n ← n.toNat?; let df ← df.toNat?
         let f := fun (verb : Nat) => hex (Roman.format [] n (Roman.flagsByVerb verb df))
         pure s!"{hex (Roman.format [] n df)} {hex (Roman.format [] n df)} {f 82} {f 114} {f 76} {f 108} {f 115}").getD bad
   | ["roman.parse", maxlen, rule, h] =>
-    (do let ml ← maxlen.toNat?; let r ← rule.toNat?; let s ← unhex h
+    (do let ml ← maxlen.toNat?; let r ← bitsField rule; let s ← unhex h
         pure (outcomeStr toString (Roman.parse ml (r % 2 == 1) s))).getD bad
   | ["roman.valid", maxlen, rule, h] =>
-    (do let ml ← maxlen.toNat?; let r ← rule.toNat?; let s ← unhex h
+    (do let ml ← maxlen.toNat?; let r ← bitsField rule; let s ← unhex h
         pure (outcomeStr (fun _ => "") (Roman.valid ml (r % 2 == 1) s))).getD bad
   -- ------------------------------------------------------------------ sem
   | ["sem.parse", entry, maxlen, h] =>
@@ -433,10 +465,10 @@ def step (line : String) : String :=
         pure (" ".intercalate (tokensF (s.length + 2) (GoJson.Dec.init s)))).getD bad
   -- ------------------------------------------------------------------ uu
   | ["uu.format", hi, lo, urn, pre] =>
-    (do let hi ← hi.toNat?; let lo ← lo.toNat?; let p ← unhex pre; let fl ← urn.toNat?
+    (do let hi ← hi.toNat?; let lo ← lo.toNat?; let p ← unhex pre; let fl ← bitsField urn
         pure (hex (UU.format p ⟨BitVec.ofNat 64 hi, BitVec.ofNat 64 lo⟩ (UU.isURN fl)))).getD bad
   | ["uu.parse", maxlen, rule, h] =>
-    (do let ml ← maxlen.toNat?; let r ← rule.toNat?; let s ← unhex h
+    (do let ml ← maxlen.toNat?; let r ← bitsField rule; let s ← unhex h
         pure (outcomeStr (fun (i : UU.ID) => s!"{i.hi.toNat} {i.lo.toNat}")
           (UU.parse ml (UU.ruleDisableURN r) (UU.ruleDisableUpper r) s))).getD bad
   | ["uu.paths", hi, lo] =>
@@ -460,8 +492,8 @@ def step (line : String) : String :=
           | some l => if l.startsWith "h:" then (tkHelperBeh ((l.drop 2).toString)).map fun hb => (rest.dropLast, hb)
                       else some (rest, none)
           | none => some (rest, none))
-        let cs ← cases.mapM tkCase
-        let (fn, reps) := TestKit.run h tk hb cs
+        let cs ← cases.mapM tkXCase
+        let (fn, reps) := TestKit.runX h tk hb cs
         pure ("=" ++ (if fn then "F" else "") ++ String.ofList (reps.map fun (r : Bool) => if r then 'r' else '-'))).getD bad
   | "hist" :: ty :: ops =>
     (do let r ← initRecv ty
